@@ -32,6 +32,15 @@ def unit_design(entry, cfg, mode):
         dut = D(hw, 'dut')
         if mode == 'direct':
             ins, outs = entry.build(dut, cfg, hw.wire)
+        elif mode == 'lists':
+            # built by a caller that reuses the list objects it passed (see catalog.hostile_lists): the text is generated afterwards,
+            # so an emitter that reads a kept reference to the caller's list prints the wrong operands
+            import zlib
+            m = ('clear', 'reverse', 'rotate', 'fill')[zlib.crc32(repr((entry.name, cfg)).encode()) % 4]
+            with catalog.hostile_lists(m) as hl:
+                ins, outs = entry.build(dut, cfg, hw.wire)
+            if not hl.lists_seen:
+                raise ValueError('no list argument')
         elif mode == 'clash':
             # the nets the parent connects to the block carry the names the block uses for its own internal wires
             pool = internal_wire_names(entry, cfg)
@@ -220,6 +229,19 @@ def special_designs():
             add('MsgSequencer(len %d)' % len(msg), f, True)
     except Exception:
         pass
+    # clock drivers that are not called like their wire, or not 'clk' at all (every driver in the repository is named like its wire)
+    for cname, wname in (('sysclk', 'CLOCK_100'), ('CLK', 'clk_i'), ('clk', 'clock_50')):
+        def f(hw, dut, cname=cname, wname=wname):
+            hw.clockDriver = py4hw.ClockDriver(cname, 100E6, 0, wire=hw.wire(wname))
+            a = hw.wire('a', 4); e = hw.wire('e'); q1 = hw.wire('q1', 4); q2 = hw.wire('q2', 4); c = hw.wire('c', 3)
+            M = cosim.Dut.cls('Mid')
+            py4hw.Reg(dut, 'r1', a, q1, enable=e)
+            mid = M(dut, 'mid'); mid.addIn('q1', q1); mid.addOut('q2', q2); mid.addIn('e', e); mid.addOut('c', c)
+            t = mid.wire('t', 4)
+            py4hw.Reg(mid, 'r2', q1, t); py4hw.Not(mid, 'n', t, q2)
+            py4hw.Reg(mid, 'r3', _low3(mid, q1), c, enable=e)
+            return [a, e], [q1, q2, c]
+        add('clock driver %s on wire %s' % (cname, wname), f, True)
     # the optional-port / parameter reuse designs of C03 (several differently configured instances of one block in one parent)
     # are also simulated: an instance bound to the wrong shared body is a behavioural difference too
     try:
@@ -230,6 +252,13 @@ def special_designs():
     except Exception:
         pass
     return out
+
+
+def _low3(parent, w):
+    import py4hw
+    r = parent.wire('low3', 3)
+    py4hw.Range(parent, 'low3', w, 2, 0, r)
+    return r
 
 
 def special_class(label):
@@ -400,7 +429,7 @@ def _units(run, tier, seed, shard, deadline):
         elif not quick and len(cfgs) > 120:
             cfgs = rnd.sample(cfgs, 120)
         for cfg in cfgs:
-            for mode in ('direct', 'nested', 'twice', 'clash'):
+            for mode in ('direct', 'nested', 'twice', 'clash', 'lists'):
                 jobs.append((e, cfg, mode))
     # pairs of different configurations of one block in one design
     for e in catalog.ENTRIES:
@@ -419,7 +448,7 @@ def _units(run, tier, seed, shard, deadline):
         try:
             des = pair_design(e, cfg[0], cfg[1]) if mode == 'pair' else unit_design(e, cfg, mode)
         except Exception as ex:
-            run.count('unit_no_internal_wires' if mode == 'clash' else 'unit_build_failed')
+            run.count('unit_no_internal_wires' if mode == 'clash' else 'unit_no_list_argument' if mode == 'lists' else 'unit_build_failed')
             continue
         vecs = cosim.gen_vectors(des.ins, rnd, 30 if quick else 120, exhaustive_bits=8 if quick else 11)
         out = cosim.cosim(des, vecs, False)
